@@ -56,6 +56,10 @@ func GenConfig(t *rapid.T, p GenParams) Config {
 			c.MaxPages = uint(rapid.IntRange(int(minPages), int(maxPages)).Draw(t, "maxPages"))
 		}
 		c.Prealloc = rapid.IntRange(0, 3).Draw(t, "prealloc") == 0
+		if rapid.IntRange(0, 7).Draw(t, "unaligned") == 0 {
+			// a max size that is not a multiple of the page size
+			c.MaxExtra = uint32(rapid.SampledFrom([]int{1, 7, 512, int(c.PageSize) - 1}).Draw(t, "maxExtra"))
+		}
 	}
 	c.InitMeta = rapid.SampledFrom([]uint32{0, 0, 1, 2, 4, 8, 16}).Draw(t, "initMeta")
 	if p.BigAllocs && (c.MaxPages == 0 || c.MaxPages >= 300) && rapid.IntRange(0, 7).Draw(t, "bigMeta") == 0 {
